@@ -113,7 +113,10 @@ def processParts : List (List Char × List Char) → List (List Char × List Cha
     else
       let v := unquoteValue pv
       match continuationKey pk with
-      | some k => processParts t (assign k ((lookup k opts).getD [] ++ v) opts)
+      | some k =>
+        -- `*0=value` has no key: skipped
+        if k.isEmpty then processParts t opts
+        else processParts t (assign k ((lookup k opts).getD [] ++ v) opts)
       | none => processParts t (assign pk v opts)
 
 /-- `parse_options_header(value)` for a `str` value -/
